@@ -92,7 +92,193 @@ def cases(tier, seed):
     for cid, kw in COARSE:
         out.append(('coarse_' + cid, dict(kind='coarse', **kw)))
     out.append(('concrete_grids', dict(kind='concrete')))
+    # asset level: a parameter given as interval data / as the name of a data column / with dates in another representation gives the same
+    # problem as the per-step values of the containing interval (computed by the harness)
+    for cid in FORMS:
+        out.append(('forms_' + cid, dict(kind='forms', which=cid)))
     return out
+
+
+FORMS = ['contract_caps_dict_open_end', 'contract_caps_dict_with_end', 'contract_caps_scalar_as_one_interval', 'contract_extra_costs_dict',
+         'multicommodity_caps_dict', 'plant_costs_dict', 'plant_caps_fuel_dict', 'chp_factor_share_dict',
+         'dates_timestamp_vs_datetime', 'dates_numpy_datetime64', 'dates_zone_aware_vs_naive_on_cet_grid', 'take_arrays_vs_lists', 'window_timestamp_vs_datetime',
+         # an optional argument omitted vs given explicitly with its documented default
+         'defaults_storage', 'defaults_contract', 'defaults_transport', 'defaults_plant', 'defaults_multicommodity']
+
+
+def build_forms(D, which):
+    """returns (problem with the parameter in the form under test, problem with plain per-step data columns / plain dates)"""
+    eao = lift.import_eao()
+    T = 4
+    tz = 'CET' if which == 'dates_zone_aware_vs_naive_on_cet_grid' else None
+    tg = shapes.grid(T, 'h', 'h', tz)
+    tp = [pd.Timestamp(t) for t in tg.timepoints]
+    naive = [t.tz_localize(None) for t in tp]
+    end_ = pd.Timestamp(shapes._grid_end(tg)).tz_localize(None)
+    dtm = lambda t: pd.Timestamp(t).to_pydatetime()
+    nA, nB, nG = shapes.nodes('A', 'B', 'G')
+    prices = {'p': D.arr('p', T), 'q': D.arr('q', T)}
+    v = lambda n, **k: D(n, **k)
+    col = lambda name, vals: prices.__setitem__(name, np.array(vals, dtype=object if D.symbolic else float)) or name
+
+    def piece(n0, n1, **k):
+        a, b = v(n0, **k), v(n1, **k)
+        return a, b, [a, a, b, b]
+    if which.startswith('contract_caps') or which == 'contract_extra_costs_dict':
+        lo0, lo1, lo_steps = piece('lo0', 'lo1', hi=0)
+        hi0, hi1, hi_steps = piece('hi0', 'hi1', lo=0)
+        e0, e1, e_steps = piece('ec0', 'ec1', lo=0)
+        if which == 'contract_caps_dict_open_end':
+            mk = lambda f: eao.assets.SimpleContract(name='a', nodes=nA, price='p', extra_costs=e0,
+                                                     min_cap={'start': [dtm(naive[0]), dtm(naive[2])], 'values': [lo0, lo1]} if f else col('lo', lo_steps),
+                                                     max_cap={'start': [dtm(naive[0]), dtm(naive[2])], 'values': [hi0, hi1]} if f else col('hi', hi_steps))
+        elif which == 'contract_caps_dict_with_end':
+            mk = lambda f: eao.assets.SimpleContract(name='a', nodes=nA, price='p', extra_costs=e0,
+                                                     min_cap={'start': [dtm(naive[2]), dtm(naive[0])], 'end': [dtm(end_), dtm(naive[2])], 'values': [lo1, lo0]} if f else col('lo', lo_steps),
+                                                     max_cap={'start': [dtm(naive[0]), dtm(naive[2])], 'end': [dtm(naive[2]), dtm(end_ + pd.Timedelta(hours=5))], 'values': [hi0, hi1]} if f else col('hi', hi_steps))
+        elif which == 'contract_caps_scalar_as_one_interval':
+            mk = lambda f: eao.assets.SimpleContract(name='a', nodes=nA, price='p', extra_costs=e0,
+                                                     min_cap={'start': dtm(naive[0]), 'end': dtm(end_), 'values': lo0} if f else lo0,
+                                                     max_cap={'start': [dtm(naive[0])], 'values': [hi0]} if f else hi0)
+        else:
+            mk = lambda f: eao.assets.Contract(name='a', nodes=nA, price='p', min_cap=lo0, max_cap=hi0,
+                                               extra_costs={'start': [dtm(naive[0]), dtm(naive[2])], 'values': [e0, e1]} if f else col('ec', e_steps))
+    elif which == 'transport_caps_dict':
+        a0, a1, a_steps = piece('tmin0', 'tmin1', lo=0)
+        b0, b1, b_steps = piece('tmax0', 'tmax1', lo=0)
+        for x_, y_ in ((a0, b0), (a1, b1)):
+            D.assume(x_ <= y_)
+        # the other form of a transport capacity is a constant: compare the two halves of the horizon with constant-capacity transports on windows
+        def mk(f):
+            if f:
+                return eao.assets.Transport(name='a', nodes=[nA, nB], efficiency=0.5, costs_const=v('cc', lo=0),
+                                            min_cap={'start': [dtm(naive[0]), dtm(naive[2])], 'values': [a0, a1]}, max_cap={'start': [dtm(naive[0]), dtm(naive[2])], 'values': [b0, b1]})
+            return eao.assets.Transport(name='a', nodes=[nA, nB], efficiency=0.5, costs_const=v('cc', lo=0),
+                                        min_cap={'start': [dtm(naive[0]), dtm(naive[2])], 'end': [dtm(naive[2]), dtm(end_)], 'values': [a0, a1]},
+                                        max_cap={'start': [dtm(naive[2]), dtm(naive[0])], 'end': [dtm(end_), dtm(naive[2])], 'values': [b1, b0]})
+    elif which == 'multicommodity_caps_dict':
+        lo0, lo1, lo_steps = piece('lo0', 'lo1', hi=0)
+        hi0, hi1, hi_steps = piece('hi0', 'hi1', lo=0)
+        mk = lambda f: eao.assets.MultiCommodityContract(name='a', nodes=[nA, nB], price='p', factors_commodities=[1.0, 0.5], extra_costs=v('ec', lo=0),
+                                                         min_cap={'start': [dtm(naive[0]), dtm(naive[2])], 'values': [lo0, lo1]} if f else col('lo', lo_steps),
+                                                         max_cap={'start': [dtm(naive[0]), dtm(naive[2])], 'values': [hi0, hi1]} if f else col('hi', hi_steps))
+    elif which in ('plant_costs_dict', 'plant_caps_fuel_dict', 'chp_factor_share_dict'):
+        r0, r1, r_steps = piece('rc0', 'rc1', lo=0)
+        s0, s1, s_steps = piece('sc0', 'sc1', lo=0)
+        c0, c1, c_steps = piece('cio0', 'cio1', lo=0)
+        f0, f1, f_steps = piece('sf0', 'sf1', lo=0)
+        d2 = lambda a, b: {'start': [dtm(naive[0]), dtm(naive[2])], 'values': [a, b]}
+        if which == 'plant_costs_dict':
+            mk = lambda f: eao.assets.Plant(name='a', nodes=[nA, nG], price='p', min_cap=1., max_cap=3., min_runtime=2, fuel_efficiency=0.5,
+                                            running_costs=d2(r0, r1) if f else col('rc', r_steps), start_costs=d2(s0, s1) if f else col('sc', s_steps),
+                                            consumption_if_on=d2(c0, c1) if f else col('cio', c_steps), start_fuel=d2(f0, f1) if f else col('sf', f_steps))
+        elif which == 'plant_caps_fuel_dict':
+            mn0, mn1, mn_steps = piece('mn0', 'mn1', lo_strict=0)
+            mx0, mx1, mx_steps = piece('mx0', 'mx1', lo=0)
+            D.assume(mn0 <= mx0); D.assume(mn1 <= mx1)
+            mk = lambda f: eao.assets.Plant(name='a', nodes=[nA, nG], price='p', start_costs=s0, running_costs=r0,
+                                            min_cap=d2(mn0, mn1) if f else col('mn', mn_steps), max_cap=d2(mx0, mx1) if f else col('mx', mx_steps),
+                                            fuel_efficiency=d2(0.5, 0.25) if f else col('fe', [0.5, 0.5, 0.25, 0.25]))
+        else:
+            mk = lambda f: eao.assets.CHPAsset(name='a', nodes=[nA, nB, nG], price='p', min_cap=1., max_cap=3., start_costs=s0, running_costs=r0, fuel_efficiency=0.5,
+                                               conversion_factor_power_heat=d2(0.25, 0.5) if f else col('cf', [0.25, 0.25, 0.5, 0.5]),
+                                               max_share_heat=d2(2.0, 1.0) if f else col('msh', [2.0, 2.0, 1.0, 1.0]))
+    elif which in ('dates_timestamp_vs_datetime', 'dates_numpy_datetime64', 'dates_zone_aware_vs_naive_on_cet_grid'):
+        lo0, lo1 = v('lo0', hi=0), v('lo1', hi=0)
+        hi0, hi1 = v('hi0', lo=0), v('hi1', lo=0)
+        if which == 'dates_timestamp_vs_datetime':
+            alt = lambda t: pd.Timestamp(t)
+        elif which == 'dates_numpy_datetime64':
+            alt = lambda t: np.datetime64(pd.Timestamp(t))
+        else:
+            alt = lambda t: pd.Timestamp(t).tz_localize('CET')          # zone-aware dates for the same wall clock
+        def mk(f):
+            cv = alt if f else dtm
+            starts = [cv(naive[0]), cv(naive[2])]
+            if f and which == 'dates_numpy_datetime64':
+                starts = np.array(starts)
+            return eao.assets.Contract(name='a', nodes=nA, price='p', extra_costs=v('ec', lo=0),
+                                       min_cap={'start': starts, 'values': [lo0, lo1]},
+                                       max_cap={'start': [cv(naive[0]), cv(naive[1])], 'end': [cv(naive[1]), cv(end_)], 'values': [hi0, hi1]},
+                                       max_take={'start': [cv(naive[1])], 'end': [cv(naive[3])], 'values': [v('take', lo=0)]})
+    elif which == 'take_arrays_vs_lists':
+        t0_, t1_ = v('take0', lo=0), v('take1', hi=0)
+        mk = lambda f: eao.assets.Contract(name='a', nodes=nA, price='p', min_cap=v('lo', hi=0), max_cap=v('hi', lo=0),
+                                           max_take={'start': np.array([dtm(naive[0])]) if f else [dtm(naive[0])], 'end': np.array([dtm(naive[3])]) if f else [dtm(naive[3])],
+                                                     'values': np.array([t0_], dtype=object) if f else [t0_]},
+                                           min_take={'start': dtm(naive[1]) if f else [dtm(naive[1])], 'end': dtm(end_) if f else [dtm(end_)], 'values': t1_ if f else [t1_]})
+    elif which == 'window_timestamp_vs_datetime':
+        mk = lambda f: eao.assets.Storage('a', nodes=nA, size=v('size', lo=0), cap_in=v('ci', lo=0), cap_out=v('co', lo=0), eff_in=0.75,
+                                          start=pd.Timestamp(naive[1]) if f else dtm(naive[1]), end=np.datetime64(naive[3]) if f else dtm(naive[3]))
+    elif which == 'defaults_storage':
+        base_ = dict(name='a', nodes=nA, size=v('size', lo=0), cap_in=v('ci', lo=0), cap_out=v('co', lo=0))
+        mk = lambda f: eao.assets.Storage(**dict(base_, **(dict(start=None, end=None, wacc=0., start_level=0., end_level=0., cost_out=0., cost_in=0., cost_store=0., inflow=0.,
+                                                                eff_in=1., no_simult_in_out=False, max_store_duration=None, price=None, freq=None, profile=None,
+                                                                periodicity=None, periodicity_duration=None, block_size=None) if f else {})))
+    elif which == 'defaults_contract':
+        base_ = dict(name='a', nodes=nA, price='p', min_cap=v('lo', hi=0), max_cap=v('hi', lo=0))
+        mk = lambda f: eao.assets.Contract(**dict(base_, **(dict(start=None, end=None, wacc=0., extra_costs=0., min_take=None, max_take=None, freq=None, profile=None,
+                                                                 periodicity=None, periodicity_duration=None) if f else {})))
+    elif which == 'defaults_transport':
+        lo_, hi_ = v('lo', lo=0), v('hi', lo=0)
+        D.assume(lo_ <= hi_)
+        base_ = dict(name='a', nodes=[nA, nB], min_cap=lo_, max_cap=hi_)
+        mk = lambda f: eao.assets.Transport(**dict(base_, **(dict(start=None, end=None, wacc=0., costs_const=0., costs_time_series=None, efficiency=1., freq=None, profile=None,
+                                                                  periodicity=None, periodicity_duration=None) if f else {})))
+    elif which == 'defaults_plant':
+        mn_, mx_ = v('mn', lo_strict=0), v('mx', lo=0)
+        D.assume(mn_ <= mx_)
+        base_ = dict(name='a', nodes=[nA, nG], price='p', min_cap=mn_, max_cap=mx_, start_costs=v('sc', lo=0))
+        mk = lambda f: eao.assets.Plant(**dict(base_, **(dict(start=None, end=None, wacc=0., extra_costs=0., min_take=None, max_take=None, freq=None, profile=None,
+                                                              periodicity=None, periodicity_duration=None, ramp=None, running_costs=0., min_runtime=0, time_already_running=0,
+                                                              min_downtime=0, time_already_off=0, last_dispatch=0, start_ramp_lower_bounds=None, start_ramp_upper_bounds=None,
+                                                              shutdown_ramp_lower_bounds=None, shutdown_ramp_upper_bounds=None, ramp_freq=None, start_fuel=0., fuel_efficiency=1.,
+                                                              consumption_if_on=0.) if f else {})))
+    elif which == 'defaults_multicommodity':
+        base_ = dict(name='a', nodes=[nA, nB], price='p', min_cap=v('lo', hi=0), max_cap=v('hi', lo=0), factors_commodities=[1.0, 0.5])
+        mk = lambda f: eao.assets.MultiCommodityContract(**dict(base_, **(dict(start=None, end=None, wacc=0., extra_costs=0., min_take=None, max_take=None, freq=None, profile=None,
+                                                                               periodicity=None, periodicity_duration=None) if f else {})))
+    else:
+        raise KeyError(which)
+    a = mk(True).setup_optim_problem(prices, tg)
+    b = mk(False).setup_optim_problem(prices, tg)
+    return a, b
+
+
+def run_forms(rec, seed, which):
+    from .c10 import compare
+    res = lift.explore_build(lambda D: build_forms(D, which), level='A')
+    rec.paths = len(res)
+    validated = False
+    for pi, (path, D) in enumerate(res):
+        P = 'p%d' % pi
+        if path.exc is not None:
+            if common.is_rejection(path.exc):
+                rec.rejected_paths += 1
+                continue
+            common.crash_candidate(rec, P + '/crash', path, D, info=dict(kind='crash'))
+            continue
+        a, b = path.result
+        base = list(D.pre) + path.pc + sym.atom_constraints()
+        if rec.vacuity(P, base) is None:
+            continue
+        rec.twin(P, base, z3.BoolVal(False))
+        goals = compare(rec, P, base, a, b)
+        nm = P + '/same_problem_for_both_forms'
+        if not goals:
+            rec.obligations.append(dict(name=nm, verdict='unsat', secs=0, form='Q2'))
+            rec.distinct.add(nm)
+        else:
+            rec.prove_each(nm, base, [(lab, g, dict(kind='forms', label=lab)) for lab, g in goals], form='Q2')
+        if not validated:
+            from .. import obs
+            env = common.generic_point(base, D.names, seed)
+            if env is not None:
+                for n_ in D.names:
+                    env.setdefault(n_, 0.0)
+                rec.validations.append(dict(env=env, lifted=obs.to_jsonable(dict(form=obs.problem_obs(a)), env)))
+                validated = True
+    return rec.result()
 
 
 COARSE = [('aligned_2h_T4', dict(T=4, coarse='2h', win=None)), ('unaligned_tail_T5', dict(T=5, coarse='2h', win=None)),
@@ -155,6 +341,8 @@ def run_case(case_id, tier, seed, kind, **kw):
         return run_coarse(rec, seed, **kw)
     if kind == 'prices':
         return run_prices(rec, seed)
+    if kind == 'forms':
+        return run_forms(rec, seed, **kw)
     if kind == 'concrete':
         rec.pchecks.append(dict(extra=dict(tier=tier)))
         rec.twins_ok += 1; rec.vacuity_ok += 1
@@ -322,6 +510,14 @@ def observe(case, kwargs, env, rq):
     kw = dict(kwargs)
     kind = kw.pop('kind')
     eao = lift.import_eao()
+    if kind == 'forms':
+        from .. import obs
+        D = lift.Domain(theta=env)
+        a, b = build_forms(D, kw['which'])
+        o = dict(form=obs.problem_obs(a))
+        if rq.get('kind') == 'replay':
+            o['plain'] = obs.problem_obs(b)
+        return o
     if kind == 'concrete':
         obligations, violations = [], []
         for freq, unit, tz, s, e in CONCRETE:
@@ -453,6 +649,10 @@ def judge(case, kwargs, cand, ans):
         return None, ans['error']
     o = ans['obs']
     k = info.get('kind')
+    if k == 'forms':
+        from .. import replay
+        d = replay.diff(o['form'], o['plain'])
+        return (True, 'the parameter form under test gives another problem than the plain per-step data: %s' % d) if d else (False, 'identical on the unshimmed code')
     if k in ('restricted', 'subset'):
         bad = o['got'] != o['want'] or not o.get('dt_ok', True)
         return bad, 'restricted grid keeps steps %s, the window contains %s' % (o['got'], o['want'])
